@@ -105,7 +105,7 @@ func c18genEffects(c *Ctx) {
 	if ok, msg := c18genSelfTest(); !ok {
 		c.Oracle("c18-scan", false, "c18-scanner-selftest-failed", "synthetic package q (shared types, lazy fields, sync, go, chan)", msg)
 	} else {
-		c.Oracle("c18-scan", true, "", "scanner self-test 2: shared types through pointers, maps and interface variables; 2 writes to fields of shared objects found, instance-only state and read-only use not reported; sync / go / chan uses", "")
+		c.Oracle("c18-scan", true, "", "scanner self-test 2: shared types through pointers, maps and interface variables; 3 writes to fields of shared objects found (one through a local alias of the field's backing array), instance-only state and read-only use not reported; sync / go / chan uses", "")
 	}
 	sc, err := c18ScanRepo(c06RepoDir())
 	if err != nil {
@@ -126,7 +126,7 @@ func c18genEffects(c *Ctx) {
 	gen := []lst{
 		{"vars", sc.Vars, ""}, {"runtimeWrittenVars", mutable, ""}, {"sharedWrites", sc.Writes, " -> "}, {"initWrites", sc.InitWrites, " -> "},
 		{"escapes", sc.Escapes, " => "}, {"instanceWrites", sc.InstWrites, ""}, {"sharedTypes", sc.SharedTypes, ""},
-		{"sharedTypeWrites", sc.SharedTypeWrites, " ~> "}, {"syncUses", sc.SyncUses, ": "}, {"goStmts", sc.GoStmts, ""}, {"chanOps", sc.ChanOps, ""},
+		{"sharedTypeWrites", sc.SharedTypeWrites, " ~> "}, {"aliasFieldWrites", sc.AliasFieldWrites, " ~> "}, {"syncUses", sc.SyncUses, ": "}, {"goStmts", sc.GoStmts, ""}, {"chanOps", sc.ChanOps, ""},
 		{"functions", sc.Funcs, ""}, {"initFunctions", sc.InitFuncs, ""},
 	}
 	for _, l := range gen {
@@ -399,6 +399,9 @@ func (f *Field) build() { if f.exp == nil { f.exp = make([]int, f.size) } }
 func (f *Field) Count() { atomic.AddInt64(&f.hits, 1) }
 func (p *Poly) Eval(x int) int { return p.f.Exp(x) + p.c[0] }
 func (s *defaultSampler) Sample() int { s.scratch = append(s.scratch[:0], 1); return len(s.scratch) }
+func (s *defaultSampler) Fill() int { b := s.scratch[:0]; b = append(b, 1); return len(b) }
+func (f *Field) Sum() int { t := f.exp; n := 0; for _, v := range t { n += v }; return n + len(t) }
+func (p *Poly) Scale(k int) { c := p.c; for i := range c { c[i] *= k } }
 func (l *Local) Bump() { l.n++ }
 func Locked() int { mu.Lock(); defer mu.Unlock(); return consts[0] }
 func Spawn() { go Locked() }
@@ -433,19 +436,22 @@ func c18genSelfTest() (bool, string) {
 		// named; Exp, which only calls build, is not).  Local.n and Poly.f are instance state of types no variable holds:
 		// in instance-writes, not here.  atomic.AddInt64(&f.hits, 1) is a call into the standard library — not seen as a
 		// write (documented unsoundness), which is why every mention of sync / sync/atomic is listed separately.
-		"shared-type-writes": "q.(*Field).build ~> q.Field.exp | q.(*defaultSampler).Sample ~> q.defaultSampler.scratch",
-		"instance-writes":    "q.Field.exp q.Local.n q.Poly.f q.defaultSampler.scratch",
-		"sync-uses":          "q.(*Field).Count: sync/atomic.AddInt64 | q.mu: sync.Mutex",
-		"go-stmts":           "q.Spawn",
-		"chan-ops":           "q.Pipe",
-		"init-writes":        "q.init -> q.tables",
-		"init-funcs":         "q.init",
-		"runtime-vars":       "",
+		"shared-type-writes": "q.(*Field).build ~> q.Field.exp | q.(*defaultSampler).Fill ~> q.defaultSampler.scratch | q.(*defaultSampler).Sample ~> q.defaultSampler.scratch",
+		// through a local alias of the field: Fill appends to s.scratch[:0], Scale stores into p.c; Sum only reads f.exp
+		"alias-writes":    "q.(*Poly).Scale ~> q.Poly.c | q.(*defaultSampler).Fill ~> q.defaultSampler.scratch",
+		"instance-writes": "q.Field.exp q.Local.n q.Poly.f q.defaultSampler.scratch",
+		"sync-uses":       "q.(*Field).Count: sync/atomic.AddInt64 | q.mu: sync.Mutex",
+		"go-stmts":        "q.Spawn",
+		"chan-ops":        "q.Pipe",
+		"init-writes":     "q.init -> q.tables",
+		"init-funcs":      "q.init",
+		"runtime-vars":    "",
 	}
 	got := map[string]string{
 		"shared-types":       strings.Join(sc.SharedTypes, " "),
 		"shared-type-writes": strings.Join(sc.SharedTypeWrites, " | "),
 		"instance-writes":    strings.Join(sc.InstWrites, " "),
+		"alias-writes":       strings.Join(sc.AliasFieldWrites, " | "),
 		"sync-uses":          strings.Join(sc.SyncUses, " | "),
 		"go-stmts":           strings.Join(sc.GoStmts, " "),
 		"chan-ops":           strings.Join(sc.ChanOps, " "),
